@@ -17,3 +17,5 @@ prop('C11', ['S1', 'S2', 'K2'],
 prop('C09', ['M4'], 'broadcast', ['lub'])
 prop('C08', ['M5', 'K1'], 'inspection', ['algebra'])
 prop('C14', ['A3'], 'immutability', ['histories'])
+
+prop('C17', ['L1', 'L3', 'L4', 'L5', 'T3'], 'concurrency', ['linearizability'])
